@@ -138,7 +138,7 @@ func (e *Engine) unitsFor(prop string, filter string) []*Unit {
 	var units []*Unit
 	for _, k := range keys {
 		ct := e.cs.Funcs[k]
-		if ct.Kind != "func" || ct.Flags["trusted"] != "" {
+		if ct.Kind != "func" || ct.Flags["trusted"] != "" || (ct.Flags["inline"] != "" && len(ct.Ensures) == 0) {
 			continue
 		}
 		if prop != "" && !hasProp(ct.Props, prop) {
@@ -178,6 +178,17 @@ func main() {
 			tier = os.Args[3]
 		}
 		os.Exit(check(os.Args[2], tier))
+	case "replay":
+		data, err := os.ReadFile(os.Args[2])
+		if err != nil {
+			fmt.Fprintln(os.Stderr, err)
+			os.Exit(2)
+		}
+		fmt.Println(string(data))
+		if replayConfirmed(os.Args[2]) {
+			os.Exit(1)
+		}
+		os.Exit(0)
 	case "dev":
 		os.Exit(dev(os.Args[2]))
 	case "list":
